@@ -52,7 +52,7 @@ def instantiations(tier, seed):
                     c["vb"] = rng.choice([[0, 0], [1, 1], [0, 1]])
         pool = list(pl.leaves(m)) + ids
         assumed = rng.sample(pool, min(2, len(pool))) if k % 2 == 1 else []
-        out.append({"model": m, "assumed": assumed})
+        out.append({"model": m, "assumed": assumed, "warm": k % 3 == 1})
     base = _boolsym(F.symbolize(F.AL(2, F.a(), F.i(), F.AL(1, F.b(), F.c(), id="B", sign=1), id="A", sign=1)))
     for mu in ("ignore_constants", "allow_fixed"):
         out.append({"kind": "mutant", "mutant": mu, "model": base, "assumed": []})
@@ -107,6 +107,8 @@ def run_inst(spec, run):
         err = red = val = None
         f1 = E.SymDict(fent)
         try:
+            if spec.get("warm"):
+                plh.warm(ns, m1)
             base = m1.assume(f1) if spec["assumed"] else m1
             # assume() may already collapse the whole model into a single constant puan.variable, which has no
             # reduce(): nothing is left to reduce (the property is about AtLeast.reduce)
